@@ -2,6 +2,34 @@
 // ---- C08/C10: compaction specification (covered set, sibling groups), from the property statements
 verus! {
 
+/// the canonical ID a decodable bit pattern aliases
+pub open spec fn canon(x: u64) -> u64 { enc(dec(x)) }
+
+pub open spec fn all_decodable(l: Seq<u64>) -> bool { forall|k: int| 0 <= k < l.len() ==> decodable(#[trigger] l[k]) }
+
+/// canonical forms of the first n entries, as a set
+pub open spec fn canon_seq(l: Seq<u64>, n: int) -> Seq<u64> { Seq::new(n as nat, |j: int| canon(l[j])) }
+
+pub open spec fn canon_set(l: Seq<u64>, n: int) -> Set<u64> { canon_seq(l, n).to_set() }
+
+pub proof fn lemma_canon_set_mem(l: Seq<u64>, n: int)
+    requires 0 <= n <= l.len(),
+    ensures forall|v: u64| #[trigger] canon_set(l, n).contains(v) <==> (exists|j: int| 0 <= j < n && v == canon(#[trigger] l[j])),
+{
+    assert forall|v: u64| #[trigger] canon_set(l, n).contains(v) <==> (exists|j: int| 0 <= j < n && v == canon(#[trigger] l[j])) by {
+        if canon_set(l, n).contains(v) {
+            assert(canon_seq(l, n).contains(v));
+            let j = choose|j: int| 0 <= j < canon_seq(l, n).len() && canon_seq(l, n)[j] == v;
+            assert(v == canon(l[j]));
+        }
+        if exists|j: int| 0 <= j < n && v == canon(#[trigger] l[j]) {
+            let j = choose|j: int| 0 <= j < n && v == canon(#[trigger] l[j]);
+            assert(canon_seq(l, n)[j] == v);
+            assert(canon_seq(l, n).contains(v));
+        }
+    }
+}
+
 pub open spec fn all_canonical(l: Seq<u64>) -> bool { forall|k: int| 0 <= k < l.len() ==> canonical(#[trigger] l[k]) }
 
 pub open spec fn max_res_le(l: Seq<u64>, m: int) -> bool { forall|k: int| 0 <= k < l.len() ==> res_of(#[trigger] l[k]) <= m }
@@ -482,54 +510,86 @@ pub proof fn lemma_sorted_unique(a: Seq<u64>, b: Seq<u64>)
 }
 
 
-/// the de-duplicated, sorted working list describes the same set of cells as the input
+/// the de-duplicated, sorted working list (canonical forms of the inputs) describes the same set of cells as the input
 pub proof fn lemma_initial_list(cells: Seq<u64>, cur: Seq<u64>)
-    requires cur.to_set() == cells.to_set(), cur.no_duplicates(),
+    requires all_decodable(cells), cur.to_set() == canon_set(cells, cells.len() as int), cur.no_duplicates(),
     ensures
-        all_canonical(cells) ==> all_canonical(cur),
+        all_canonical(cur),
         forall|m: int| max_res_le(cells, m) ==> max_res_le(cur, m),
         forall|y: A5Cell| covers(cur, y) <==> covers(cells, y),
         antichain_set(cells) ==> antichain(cur),
 {
-    assert forall|k: int| 0 <= k < cur.len() implies cells.contains(#[trigger] cur[k]) by {
+    lemma_canon_set_mem(cells, cells.len() as int);
+    // every entry of cur is the canonical form of some input, and vice versa
+    assert forall|k: int| 0 <= k < cur.len() implies
+        exists|j: int| 0 <= j < cells.len() && #[trigger] cur[k] == canon(#[trigger] cells[j]) by {
         assert(cur.to_set().contains(cur[k]));
+        assert(canon_set(cells, cells.len() as int).contains(cur[k]));
     }
-    assert forall|k: int| 0 <= k < cells.len() implies cur.contains(#[trigger] cells[k]) by {
-        assert(cells.to_set().contains(cells[k]));
+    assert forall|j: int| 0 <= j < cells.len() implies cur.contains(canon(#[trigger] cells[j])) by {
+        assert(canon_set(cells, cells.len() as int).contains(canon(cells[j])));
+        assert(cur.to_set().contains(canon(cells[j])));
     }
-    if all_canonical(cells) {
-        assert forall|k: int| 0 <= k < cur.len() implies canonical(#[trigger] cur[k]) by {
-            let j = choose|j: int| 0 <= j < cells.len() && cells[j] == cur[k];
-            assert(canonical(cells[j]));
-        }
+    assert forall|j: int| 0 <= j < cells.len() implies
+        canonical(canon(#[trigger] cells[j])) && dec(canon(cells[j])) == dec(cells[j]) && res_of(canon(cells[j])) == res_of(cells[j]) by {
+        lemma_enc_dec(cells[j]);
+        lemma_dec_res(cells[j]);
+        lemma_res_of_enc(dec(cells[j]));
+    }
+    assert forall|k: int| 0 <= k < cur.len() implies canonical(#[trigger] cur[k]) by {
+        let j = choose|j: int| 0 <= j < cells.len() && cur[k] == canon(#[trigger] cells[j]);
     }
     assert forall|m: int| max_res_le(cells, m) implies max_res_le(cur, m) by {
         assert forall|k: int| 0 <= k < cur.len() implies res_of(#[trigger] cur[k]) <= m by {
-            let j = choose|j: int| 0 <= j < cells.len() && cells[j] == cur[k];
+            let j = choose|j: int| 0 <= j < cells.len() && cur[k] == canon(#[trigger] cells[j]);
             assert(res_of(cells[j]) <= m);
         }
     }
     assert forall|y: A5Cell| covers(cur, y) <==> covers(cells, y) by {
         if covers(cur, y) {
             let k = choose|k: int| 0 <= k < cur.len() && is_desc(y, dec(#[trigger] cur[k]));
-            let j = choose|j: int| 0 <= j < cells.len() && cells[j] == cur[k];
+            let j = choose|j: int| 0 <= j < cells.len() && cur[k] == canon(#[trigger] cells[j]);
             assert(is_desc(y, dec(cells[j])));
         }
         if covers(cells, y) {
             let k = choose|k: int| 0 <= k < cells.len() && is_desc(y, dec(#[trigger] cells[k]));
-            let j = choose|j: int| 0 <= j < cur.len() && cur[j] == cells[k];
+            assert(cur.contains(canon(cells[k])));
+            let j = choose|j: int| 0 <= j < cur.len() && cur[j] == canon(cells[k]);
             assert(is_desc(y, dec(cur[j])));
         }
     }
     if antichain_set(cells) {
         assert forall|a: int, b: int| 0 <= a < cur.len() && 0 <= b < cur.len() && a != b
             implies !overlap(dec(#[trigger] cur[a]), dec(#[trigger] cur[b])) by {
-            let ja = choose|j: int| 0 <= j < cells.len() && cells[j] == cur[a];
-            let jb = choose|j: int| 0 <= j < cells.len() && cells[j] == cur[b];
+            let ja = choose|j: int| 0 <= j < cells.len() && cur[a] == canon(#[trigger] cells[j]);
+            let jb = choose|j: int| 0 <= j < cells.len() && cur[b] == canon(#[trigger] cells[j]);
             assert(cur[a] != cur[b]);
+            assert(cells[ja] != cells[jb]);
             assert(!overlap(dec(cells[ja]), dec(cells[jb])));
         }
     }
+}
+
+/// for a list of canonical IDs the canonical forms are the IDs themselves
+pub proof fn lemma_canon_set_of_canonical(l: Seq<u64>)
+    requires all_canonical(l),
+    ensures canon_set(l, l.len() as int) == l.to_set(), all_decodable(l),
+{
+    assert forall|j: int| 0 <= j < l.len() implies canon(#[trigger] l[j]) == l[j] && decodable(l[j]) by {
+        lemma_canonical_decodable(l[j]);
+    }
+    lemma_canon_set_mem(l, l.len() as int);
+    assert forall|v: u64| canon_set(l, l.len() as int).contains(v) <==> l.to_set().contains(v) by {
+        if canon_set(l, l.len() as int).contains(v) {
+            let j = choose|j: int| 0 <= j < l.len() && v == canon(#[trigger] l[j]);
+            assert(l[j] == v);
+        }
+        if l.contains(v) {
+            let j = choose|j: int| 0 <= j < l.len() && l[j] == v;
+            assert(v == canon(l[j]));
+        }
+    }
+    assert(canon_set(l, l.len() as int) =~= l.to_set());
 }
 
 /// what compact()'s sibling test establishes: the k entries are exactly the children of the parent
